@@ -245,14 +245,15 @@ pub fn search(tier: &str, seed: u64, s: &mut Search) {
             2 => format!(r#"x1="{}" y1="0" x2="{}" y2="{h}""#, w + off, w + off),
             _ => format!(r#"x1="0" y1="{}" x2="{w}" y2="{}""#, h + off, h + off),
         };
-        let extra = match (i / 4) % 4 {
+        let extra = match (i / 4) % 5 {
+            4 => r##" filter="url(#glow)""##.to_string(),
             0 => String::new(),
             1 => r#" opacity="0.6""#.to_string(),
             2 => r#" stroke-dasharray="30 10""#.to_string(),
             _ => r##" marker-start="url(#mk)" marker-end="url(#mk)""##.to_string(),
         };
         let svg = format!(
-            r##"<svg xmlns="http://www.w3.org/2000/svg" width="{w}" height="{h}"><defs><marker id="mk" markerWidth="6" markerHeight="6" refX="3" refY="3" overflow="visible"><circle cx="3" cy="3" r="3" fill="gold"/></marker></defs><line {line} stroke="#1b4f72" stroke-width="{sw}" stroke-linecap="{cap}"{extra}/><path d="M -{off} -{off} L {} -{off} L {} {}" fill="none" stroke="#b03a2e" stroke-width="{sw}" stroke-linejoin="{}"/><circle cx="110" cy="90" r="40" fill="#f7dc6f" stroke="#7d6608" stroke-width="6"/></svg>"##,
+            r##"<svg xmlns="http://www.w3.org/2000/svg" width="{w}" height="{h}"><defs><marker id="mk" markerWidth="6" markerHeight="6" refX="3" refY="3" overflow="visible"><circle cx="3" cy="3" r="3" fill="gold"/></marker><filter id="glow" x="-2" y="-2" width="5" height="5"><feGaussianBlur stdDeviation="9"/></filter></defs><g id="layer1"><ellipse cx="-33" cy="60" rx="30" ry="25" fill="#a0f" filter="url(#glow)"/></g><line {line} stroke="#1b4f72" stroke-width="{sw}" stroke-linecap="{cap}"{extra}/><path d="M -{off} -{off} L {} -{off} L {} {}" fill="none" stroke="#b03a2e" stroke-width="{sw}" stroke-linejoin="{}"/><circle cx="110" cy="90" r="40" fill="#f7dc6f" stroke="#7d6608" stroke-width="6"/></svg>"##,
             w + off, w + off, h + off, rng.pick(&["miter", "round", "bevel"])
         );
         let Ok(Ok(tree)) = pan::catch(|| usvg::Tree::from_str(&svg, &crate::corpus::opts_for(None))) else { continue };
